@@ -17,6 +17,7 @@ import (
 	"Havoc/pkg/profile/yaotl/hclsyntax"
 
 	"github.com/zclconf/go-cty/cty"
+	"github.com/zclconf/go-cty/cty/function"
 
 	"verifharness/internal/gen"
 )
@@ -87,6 +88,12 @@ func (n *xnode) sexp() string {
 		return "C(" + n.kids[0].sexp() + "," + n.kids[1].sexp() + "," + els + ")"
 	case "J":
 		return "J(R" + n.s + "(" + n.kids[0].sexp() + "," + n.kids[1].sexp() + "))"
+	case "K": // a function call: s = name, keys = ["..."] when the last argument is expanded
+		var ps []string
+		for _, k := range n.kids {
+			ps = append(ps, k.sexp())
+		}
+		return "K" + n.s + strings.Join(n.keys, "") + "(" + strings.Join(ps, ",") + ")"
 	case "H": // a heredoc: s = "1" flush; the kids are the template tokens as the scanner yields them
 		var ps []string
 		for _, k := range n.kids {
@@ -271,6 +278,12 @@ func (n *xnode) src(r *gen.Rng, redundant bool) string {
 		return wrap(out)
 	case "PB", "D", "J":
 		return n.tmplInner(r, redundant)
+	case "K":
+		var ps []string
+		for _, k := range n.kids {
+			ps = append(ps, k.src(r, redundant))
+		}
+		return wrap(n.s + sp() + "(" + sp() + strings.Join(ps, ","+sp()) + strings.Join(n.keys, "") + sp() + ")")
 	case "H":
 		var b strings.Builder
 		b.WriteString("<<")
@@ -495,6 +508,16 @@ func astSexp(e hclsyntax.Expression) string {
 		return "P(" + strings.Join(ps, ",") + ")"
 	case *hclsyntax.TemplateWrapExpr:
 		return "P(" + astSexp(x.Wrapped) + ")"
+	case *hclsyntax.FunctionCallExpr:
+		var ps []string
+		for _, k := range x.Args {
+			ps = append(ps, astSexp(k))
+		}
+		ex := ""
+		if x.ExpandFinal {
+			ex = "..."
+		}
+		return "K" + x.Name + ex + "(" + strings.Join(ps, ",") + ")"
 	}
 	return fmt.Sprintf("?%T", e)
 }
@@ -548,6 +571,50 @@ func valStr(v cty.Value) string {
 		return "o(" + strings.Join(ps, ",") + ")"
 	}
 	return "?val"
+}
+
+// the functions of the evaluation context (modelled in Model/Expr.lean: funSig, applyFun)
+var c18Funcs = map[string]function.Function{
+	"add2": function.New(&function.Spec{
+		Params: []function.Parameter{{Name: "a", Type: cty.Number}, {Name: "b", Type: cty.Number}},
+		Type:   function.StaticReturnType(cty.Number),
+		Impl:   func(args []cty.Value, _ cty.Type) (cty.Value, error) { return args[0].Add(args[1]), nil },
+	}),
+	"neg1": function.New(&function.Spec{
+		Params: []function.Parameter{{Name: "b", Type: cty.Bool}},
+		Type:   function.StaticReturnType(cty.Bool),
+		Impl:   func(args []cty.Value, _ cty.Type) (cty.Value, error) { return args[0].Not(), nil },
+	}),
+	"cat": function.New(&function.Spec{
+		VarParam: &function.Parameter{Name: "parts", Type: cty.String},
+		Type:     function.StaticReturnType(cty.String),
+		Impl: func(args []cty.Value, _ cty.Type) (cty.Value, error) {
+			var b strings.Builder
+			for _, a := range args {
+				b.WriteString(a.AsString())
+			}
+			return cty.StringVal(b.String()), nil
+		},
+	}),
+	"pick": function.New(&function.Spec{
+		Params:   []function.Parameter{{Name: "i", Type: cty.Number}},
+		VarParam: &function.Parameter{Name: "xs", Type: cty.DynamicPseudoType, AllowNull: true, AllowDynamicType: true},
+		Type: func(args []cty.Value) (cty.Type, error) {
+			bf := args[0].AsBigFloat()
+			if !bf.IsInt() {
+				return cty.DynamicPseudoType, fmt.Errorf("index must be a whole number")
+			}
+			i, _ := bf.Int64()
+			if bf.Sign() < 0 || !bf.IsInt() || i >= int64(len(args)-1) || bf.Cmp(big.NewFloat(1e9)) > 0 {
+				return cty.DynamicPseudoType, fmt.Errorf("index out of range")
+			}
+			return args[1+i].Type(), nil
+		},
+		Impl: func(args []cty.Value, _ cty.Type) (cty.Value, error) {
+			i, _ := args[0].AsBigFloat().Int64()
+			return args[1+i], nil
+		},
+	}),
 }
 
 func evalSrc(src string, ctx *hcl.EvalContext) string {
@@ -743,6 +810,7 @@ func runC18(c *Ctx) {
 		return e
 	}
 	var genNum, genBool, genStr, genAny, genColl func(d int) *xnode
+	var genCall func(d int, kind string) *xnode
 	var collVar func() *xnode
 	leafNum := func() *xnode {
 		if r.Chance(1, 3) {
@@ -754,7 +822,9 @@ func runC18(c *Ctx) {
 		if d <= 0 {
 			return leafNum()
 		}
-		switch k := r.Intn(12); {
+		switch k := r.Intn(13); {
+		case k == 12:
+			return genCall(d, "n")
 		case k < 6:
 			return &xnode{k: "B", s: gen.Pick(r, []string{"add", "sub", "mul", "add", "sub", "mul", "mod", "div"}), kids: []*xnode{genNum(d - 1), genNum(d - 1)}}
 		case k < 7:
@@ -773,7 +843,9 @@ func runC18(c *Ctx) {
 		if d <= 0 {
 			return gen.Pick(r, []*xnode{{k: "T"}, {k: "F"}, {k: "V", s: "b1"}})
 		}
-		switch k := r.Intn(10); {
+		switch k := r.Intn(11); {
+		case k == 10:
+			return genCall(d, "b")
 		case k < 3:
 			return &xnode{k: "B", s: gen.Pick(r, []string{"and", "or"}), kids: []*xnode{genBool(d - 1), genBool(d - 1)}}
 		case k < 6:
@@ -784,6 +856,81 @@ func runC18(c *Ctx) {
 			return &xnode{k: "U", s: "!", kids: []*xnode{genBool(d - 1)}}
 		default:
 			return &xnode{k: "V", s: "b1"}
+		}
+	}
+	// function calls: well-typed by result kind, or ("x") deliberately loose: unknown names, arity, argument
+	// types and conversions, null arguments, the expanding final argument
+	genCall = func(d int, kind string) *xnode {
+		call := func(name string, expand bool, args ...*xnode) *xnode {
+			n := &xnode{k: "K", s: name, kids: args}
+			if expand {
+				n.keys = []string{"..."}
+			}
+			return n
+		}
+		lit := func(k, s string) *xnode { return &xnode{k: k, s: s} }
+		switch kind {
+		case "n":
+			switch r.Intn(4) {
+			case 0, 1:
+				return call("add2", false, genNum(d-1), genNum(d-1))
+			case 2:
+				return call("pick", false, lit("N", fmt.Sprint(r.Intn(3))), genNum(d-1), genNum(d-1), genNum(d-1))
+			default:
+				return call("pick", true, lit("N", fmt.Sprint(r.Intn(3))), lit("V", gen.Pick(r, []string{"nums", "lst"})))
+			}
+		case "b":
+			return call("neg1", false, genBool(d-1))
+		case "s":
+			switch r.Intn(3) {
+			case 0:
+				var args []*xnode
+				for i := 0; i < r.Intn(4); i++ {
+					args = append(args, gen.Pick(r, []func(int) *xnode{genStr, genNum, genBool, genStr})(d-1))
+				}
+				return call("cat", false, args...)
+			case 1:
+				return call("cat", true, lit("S", "<"), lit("V", "strs"))
+			default:
+				return call("cat", true, &xnode{k: "L", kids: []*xnode{genStr(d - 1), genNum(0), genBool(0)}})
+			}
+		}
+		numStr := func() *xnode {
+			return lit("S", gen.Pick(r, []string{"12", "-3", "007", "0", "1e2", "0x10", " 5", "Inf", "x", "", "1.5"}))
+		}
+		switch r.Intn(16) {
+		case 0:
+			return call(gen.Pick(r, []string{"nosuch", "add", "Add2", "cat2"}), false, genAny(d-1))
+		case 1:
+			return call("add2", false, genAny(d-1))
+		case 2:
+			return call("add2", false, genNum(0), genNum(0), genAny(d-1))
+		case 3:
+			return call("add2", false, genAny(d-1), genAny(d-1))
+		case 4:
+			return call("add2", false, numStr(), genNum(d-1))
+		case 5:
+			return call("add2", false, &xnode{k: "P", kids: []*xnode{lit("V", "n1"), lit("S", "0")}}, lit("N", "1"))
+		case 6:
+			return call("neg1", false, gen.Pick(r, []*xnode{lit("S", "true"), lit("S", "1"), lit("S", "0"), lit("S", "false"), lit("S", "TRUE"), lit("S", "yes"), lit("N", "1"), lit("Z", ""), genAny(d - 1)}))
+		case 7:
+			return call("cat", true, genAny(d-1))
+		case 8:
+			return call("cat", false, genAny(d-1), genAny(d-1))
+		case 9:
+			return call("pick", false, genAny(d-1), genAny(d-1), genAny(d-1))
+		case 10:
+			return call("pick", true, genNum(0), genAny(d-1))
+		case 11:
+			return call("pick", true, gen.Pick(r, []*xnode{{k: "U", s: "-", kids: []*xnode{lit("N", "1")}}, lit("N", "5"), lit("N", "2"), lit("N", "0")}), lit("V", gen.Pick(r, []string{"nums", "lst", "strs", "objs"})))
+		case 12:
+			return call("add2", true, lit("V", gen.Pick(r, []string{"nums", "lst", "strs", "any", "obj"})))
+		case 13:
+			return call("add2", true, lit("N", "1"), lit("V", gen.Pick(r, []string{"nums", "lst"})))
+		case 14:
+			return call("neg1", true, &xnode{k: "L"})
+		default:
+			return call(gen.Pick(r, []string{"cat", "pick", "neg1"}), false)
 		}
 	}
 	// a heredoc, plain or flush: lines with their own indentation, blank lines, lines that start with an interpolation
@@ -839,6 +986,9 @@ func runC18(c *Ctx) {
 		}
 		if r.Chance(1, 5) {
 			return genHeredoc(d)
+		}
+		if r.Chance(1, 8) {
+			return genCall(d, "s")
 		}
 		n := &xnode{k: "P"}
 		for i := 0; i < 1+r.Intn(3); i++ {
@@ -929,9 +1079,11 @@ func runC18(c *Ctx) {
 					{k: "P", kids: []*xnode{{k: "S", s: "<"}, v(), {k: "S", s: ">"}}}}
 			case ct.elem == "n":
 				return []*xnode{v(), {k: "B", s: gen.Pick(r, []string{"add", "mul", "sub"}), kids: []*xnode{v(), genNum(0)}}, {k: "P", kids: []*xnode{{k: "S", s: "<"}, v(), {k: "S", s: ">"}}},
-					{k: "C", kids: []*xnode{{k: "B", s: "lt", kids: []*xnode{v(), genNum(0)}}, v(), {k: "N", s: "0"}}}}
+					{k: "C", kids: []*xnode{{k: "B", s: "lt", kids: []*xnode{v(), genNum(0)}}, v(), {k: "N", s: "0"}}},
+					{k: "K", s: "add2", kids: []*xnode{v(), genNum(0)}}, {k: "K", s: "pick", kids: []*xnode{{k: "N", s: "1"}, genNum(0), v()}}}
 			case ct.elem == "s":
-				return []*xnode{v(), {k: "P", kids: []*xnode{v(), {k: "S", s: "!"}}}, {k: "B", s: "eq", kids: []*xnode{v(), {k: "S", s: "p"}}}}
+				return []*xnode{v(), {k: "P", kids: []*xnode{v(), {k: "S", s: "!"}}}, {k: "B", s: "eq", kids: []*xnode{v(), {k: "S", s: "p"}}},
+					{k: "K", s: "cat", kids: []*xnode{v(), {k: "S", s: "+"}, v()}}}
 			case ct.elem == "o":
 				return []*xnode{v(), {k: "A", s: "a", kids: []*xnode{v()}}, {k: "A", s: "name", kids: []*xnode{v()}},
 					{k: "P", kids: []*xnode{{k: "A", s: "name", kids: []*xnode{v()}}, {k: "S", s: "="}, {k: "A", s: "a", kids: []*xnode{v()}}}}}
@@ -1033,6 +1185,9 @@ func runC18(c *Ctx) {
 		}
 	}
 	genAny = func(d int) *xnode {
+		if d > 0 && r.Chance(1, 9) {
+			return genCall(d, gen.Pick(r, []string{"x", "x", "x", "n", "s", "b"}))
+		}
 		switch k := r.Intn(14); {
 		case k < 3:
 			return genNum(d)
@@ -1204,6 +1359,6 @@ func c18Line(c *Ctx, in string) {
 			vars[b[:i]] = v.cty()
 		}
 	}
-	ctx := &hcl.EvalContext{Variables: vars}
+	ctx := &hcl.EvalContext{Variables: vars, Functions: c18Funcs}
 	c.Emit("%s => min:%s red:%s", in, strings.ReplaceAll(evalSrc(string(unhx(m["min"])), ctx), " ", ";"), strings.ReplaceAll(evalSrc(string(unhx(m["red"])), ctx), " ", ";"))
 }
